@@ -236,6 +236,7 @@ class POXCore (EventMixin):
                                       use_epoll=epoll_selecthub)
 
     self._waiters = [] # List of waiting components
+    self._up_raised = False # UpEvent is raised once
 
   @property
   def banner (self):
@@ -441,6 +442,8 @@ class POXCore (EventMixin):
     return deferral
 
   def _goUp_stage2 (self):
+    if self._up_raised: return # (A late deferral was released)
+    self._up_raised = True
 
     self.raiseEvent(UpEvent())
 
